@@ -1,8 +1,8 @@
 (* TransposeRefresh (C02): the declared-shape side of the Transpose fold passes on the common graph.  After a fold has moved
    an elementwise region to the other layout, the real passes call _refresh_elementwise_output_shape(node, rewired=True) on
    the re-wired members, producers first (chain order / breadth-first order / graph order: all topological, hence the same
-   result as graph order, which is what the model uses).  [ReshapePairPass.refresh] is the model of that function; a member
-   that is not in the default domain "" (an "ai.onnx::" operator) is skipped, as the function returns at once for it. *)
+   result as graph order, which is what the model uses).  [ReshapePairPass.refresh] is the model of that function (applied to
+   the node with its operator normalised as _op_type does). *)
 From Coq Require Import ZArith String List Bool Arith Lia.
 From J2O Require Import PyLib Tensor Graph Redirect ReshapePairPass TransposePairPass TransposeAddForestPass OptGraph.
 Import ListNotations.
@@ -10,8 +10,9 @@ Import ListNotations.
 Definition copy_ann' {B} (dst src : option B) : option B := match src with Some s => Some s | None => dst end.
 
 (* one rewired refresh: declared shape, and the declared dtype copied from the shape source when the broadcast is known *)
-Definition o_refresh_rw (g : ograph) (n : node) : ograph :=
-  if str_startswith "ai.onnx::" (n_op n) then g else
+Definition o_refresh_rw (g : ograph) (n0 : node) : ograph :=
+  (* the function reads the operator through _op_type: "ai.onnx::Op" is Op *)
+  let n := mkNode (op_type (n_op n0)) (n_attrs n0) (n_ins n0) (n_caps n0) (n_outs n0) in
   let gp := refresh (projP g) n in
   let dt := if String.eqb (n_op n) "Cast" || String.eqb (n_op n) "CastLike" || String.eqb (n_op n) "Not" then o_dtype g else
             match n_outs n, shape_source (projP g) (n_ins n), mapM (o_shape g) (n_ins n) with
@@ -26,7 +27,7 @@ Definition o_refresh_members (outs : list name) (g : ograph) : ograph :=
   fold_left (fun g1 n => if existsb (fun y => existsb (Nat.eqb y) outs) (n_outs n) then o_refresh_rw g1 n else g1) (o_nodes g) g.
 
 (* the members each kind of fold refreshes.  [chain_rf]: whether the chain fold of phase D, case 1 refreshes its members
-   (it did not: .scratch/c02p/defect_transpose_chain_stale_shape.py) *)
+   (it did not — .scratch/c02p/defect_transpose_chain_stale_shape.py —; it does since the repair: chain_rf = true) *)
 Definition refreshed_outs (chain_rf : bool) (act : taction) : list name :=
   match act with
   | TAddChain st => map out_of (as_chain st)
